@@ -422,6 +422,15 @@ func history01(e reg.Entry, idx []int, rev int, plain []byte, want []any) string
 	return ""
 }
 
+func firstDiff(a, b []byte) int {
+	for i := 0; i < len(a) && i < len(b); i++ {
+		if a[i] != b[i] {
+			return i
+		}
+	}
+	return min(len(a), len(b))
+}
+
 // serverSpellings lists other type strings with the same wire layout as t, as a server
 // spells them: Decimal(P, S) for the fixed-width decimals (both ends of each precision
 // range), explicit time zones for the timestamps.
@@ -666,6 +675,19 @@ func c01Sizes(c *vk.Ctx) {
 				if err != nil {
 					c.Violation("C01/size/long-string/encode-error/"+cr.label, id, err.Error(), nil)
 					return
+				}
+				{
+					sink := &sink14{failAt: -1}
+					w := proto.NewWriter(sink, new(proto.Buffer))
+					blk := proto.Block{Info: proto.BlockInfo{BucketNum: -1}, Columns: 1, Rows: col.Rows()}
+					if werr := blk.WriteBlock(w, 54460, []proto.InputColumn{{Name: "col", Data: col}}); werr != nil {
+						c.Violation("C01/size/long-string/write-error/"+cr.label, id, werr.Error(), nil)
+						return
+					}
+					if _, ferr := w.Flush(); ferr != nil || !bytes.Equal(sink.got, b) {
+						c.Violation("C01/size/long-string/write-path-differs/"+cr.label, id, fmt.Sprintf("string of %d bytes: WriteBlock+Flush gives other bytes than EncodeBlock (%d vs %d bytes, first difference at %d)", ln, len(sink.got), len(b), firstDiff(sink.got, b)), nil)
+						return
+					}
 				}
 				r := refwire.NewR(b)
 				_, _, cols := refcol.DecodeBlockBody(r, 54460)
